@@ -17,7 +17,7 @@ def main(tier):
         cases = []
         for k, v in by.items():
             rng.shuffle(v)
-            cases += v[:150]
+            cases += v[:600]
     # valid definitions must keep being accepted by both sides (no check may pass by refusing everything)
     pool = attr.valid_pool(rng, 150 if tier == "quick" else 1500, start_id=100000)
     try:
